@@ -40,6 +40,9 @@ def _strip(e):
         return e
 
 
+CTX = None   # set by the rule module: lets record_keys look into closures passed to and_then / map
+
+
 def record_keys(e):
     """lookup chain of a record expression: [(container field, key expr)] from outermost to innermost"""
     out = []
@@ -48,6 +51,19 @@ def record_keys(e):
             cont = _strip(x[2][0])
             cname = cont[2] if cont[0] == 'field' else render(cont)
             out.append((cname, x[2][1]))
+        if x[0] == 'call' and x[1].split('::')[-1] in ('and_then', 'map', 'filter', 'is_some_and', 'map_or') and CTX is not None:
+            # the lookup happens inside the closure: `opt.and_then(|table| table.get(&key))`
+            recv = _strip(x[2][0]) if x[2] else None
+            for a in x[2][1:]:
+                if a[0] == 'closure' and CTX.has(a[1]):
+                    cb = CTX.body(a[1])
+                    for c in cb.calls:
+                        if c.name.split('::')[-1] in ('get', 'contains', 'contains_key', 'get_mut') and len(c.args) == 2:
+                            k = cb.expr_operand(c.args[1])
+                            if k[0] == 'upvar':
+                                k = ('param', k[1])
+                            cname = recv[2] if recv is not None and recv[0] == 'field' else 'closure'
+                            out.append((cname, k))
     return out
 
 
